@@ -199,6 +199,7 @@ func (rc *rangeChecker) check(what string, path string, rng hcl.Range) {
 	}
 	if fi.badKeys[key] || (len(fi.tainted) > 0 && (fi.inTaint(rng.Start.Byte) || fi.inTaint(rng.End.Byte))) {
 		rc.upstream++
+		rc.r.Class("upstream-range-at:" + sigOf(what))
 		return
 	}
 	n := len(fi.src)
